@@ -8,9 +8,11 @@ Definition fsub (a b : float) : float := (a - b)%float.
 Definition fmul (a b : float) : float := (a * b)%float.
 Definition fdiv (a b : float) : float := (a / b)%float.
 Definition fsqrt (a : float) : float := PrimFloat.sqrt a.
+(* classifier only: epsilon^2 reaches MAX_DBL, the pseudo distance SimplifyPath gives the ends of an open path *)
+Definition eps_sqr_ge_max (eps : float) : bool := negb (fsqr eps <? MAX_DBL)%float.
 
 Extraction "m.ml" trim_collinear simplify_path rdp_path rdp_path_flags strip_duplicates strip_near_equal
   get_bounds translate_path translate_ub_free path_length ellipse_i ellipse_d ellipse_params ellipse_angle
   perp_d2 is_collinear sublistb path_eqb keeps_ends no_cyc_dup no_reversal no_cyc_collinear corners_or_empty
   simplify_fixed_f rdp_bad_f  area2 Z2F fsqr fadd fsub fmul fdiv fsqrt pt_eqb near_equal std_unique
-  no_lin_dup no_lin_reversal no_lin_collinear bbox_of collect cross.
+  no_lin_dup no_lin_reversal no_lin_collinear bbox_of collect cross eps_sqr_ge_max.
